@@ -80,9 +80,58 @@ def run(ctx):
             it = strip_refs(vec[2][0]) if ok else None
             ok = ok and it[0] == "call" and it[1]["path"] == "core::slice::<impl [T]>::iter"
             owned = strip_refs(it[2][0]) if ok else None
+            if not ok and vec[0] == "call" and vec[1] and re.search(r"Vec::<T>::(new|with_capacity)$", vec[1]["path"]) and len(vec) > 3:
+                # the reference vector built in place: `let mut refs = Vec::with_capacity(n); refs.extend(&owned)` (or pushes of
+                # `&owned[i]` / of the items of an iteration over `owned`): every mutation of that vector takes its elements
+                # from one and the same vector of owned values
+                srcs, other = [], []
+                for mbi, mt in ev.calls():
+                    mp_ = callee_path(mt) or ""
+                    if not mt["args"]:
+                        continue
+                    recv = strip_refs(ev.trace(mt["args"][0]))
+                    if not (recv[0] == "call" and len(recv) > 3 and recv[3] == vec[3] and recv[1] and recv[1]["path"] == vec[1]["path"]):
+                        continue
+                    if re.search(r"Extend<.*>>::extend$|::extend$|::extend_from_slice$", mp_) and len(mt["args"]) == 2:
+                        x_ = strip_refs(ev.trace(mt["args"][1]))
+                        while x_[0] == "call" and x_[1] and re.search(r"Deref>::deref$|::iter$|::as_slice$|IntoIterator>::into_iter$", x_[1]["path"]) and x_[2]:
+                            x_ = strip_refs(x_[2][0])
+                        srcs.append(x_)
+                    elif re.search(r"::(len|capacity|reserve|is_empty|as_slice|iter)$|Deref>::deref$", mp_):
+                        continue
+                    else:
+                        other.append(mp_)
+                if len(srcs) == 1 and not other:
+                    ok, owned = True, srcs[0]
             while ok and owned[0] == "call" and owned[1]["path"].endswith("Deref>::deref"):
                 owned = strip_refs(owned[2][0])
             src = strip_payload(owned) if ok else None
+
+            def _ok_alternative(e_, depth=0):
+                """The success value of a Result-valued merge: phi(Err{..} | Ok{X}) seen through `?` is X."""
+                e_ = strip_refs(e_)
+                if depth > 6:
+                    return e_
+                if e_[0] == "call" and e_[1] and e_[1]["path"].endswith("as std::ops::Try>::branch") and e_[2]:
+                    return _ok_alternative(e_[2][0], depth + 1)
+                if e_[0] == "field" and e_[2] == 0 and isinstance(e_[1], tuple) and e_[1][0] == "downcast" and e_[1][2] in ("Continue", "Ok"):
+                    return _ok_alternative(e_[1][1], depth + 1)
+                if e_[0] == "agg" and e_[1].get("variant") == "Ok" and e_[2]:
+                    return _ok_alternative(e_[2][0], depth + 1)
+                if e_[0] == "phi":
+                    alts = []
+                    for a_ in e_[2]:
+                        a_ = strip_refs(a_)
+                        if a_[0] == "agg" and a_[1].get("variant") == "Err":
+                            continue
+                        if a_[0] == "call" and a_[1] and "from_residual" in a_[1]["path"]:
+                            continue
+                        alts.append(_ok_alternative(a_, depth + 1))
+                    if alts and all(x_ == alts[0] for x_ in alts):
+                        return alts[0]
+                return e_
+            if ok and src[0] in ("phi", "field"):
+                src = _ok_alternative(owned)
             loop_built = bool(ok and src[0] == "call" and src[1] and re.search(r"Vec::<T>::(new|with_capacity)$", src[1]["path"]) and "serde_json::Value" in (src[1].get("full") or src[1]["path"] + str(src[1])))
             if ok and src[0] == "call" and src[1] and re.search(r"Vec::<T>::(new|with_capacity)$", src[1]["path"]):
                 # built by pushes in a loop: every push appends the owned conversion of an evaluation result
